@@ -161,6 +161,9 @@ impl<F: Future> Future for CancelAfter<F> {
     type Output = Cancelled<F::Output>;
 
     fn poll(mut self: Pin<&mut Self>, cx: &mut Context<'_>) -> Poll<Self::Output> {
+        // The future is dropped when it is polled again after having been pending `polls` times,
+        // i.e. at a wake-up (like a select! whose other branch fires at that moment); with
+        // `polls == 0` it is dropped without ever being polled.
         if let Some(0) = self.left {
             self.fut = None;
             return Poll::Ready(Cancelled::Dropped);
@@ -174,10 +177,6 @@ impl<F: Future> Future for CancelAfter<F> {
             Poll::Pending => {
                 if let Some(left) = &mut self.left {
                     *left -= 1;
-                    if *left == 0 {
-                        self.fut = None;
-                        return Poll::Ready(Cancelled::Dropped);
-                    }
                 }
                 Poll::Pending
             }
